@@ -45,6 +45,9 @@ def plan(tier, seed):
     cases += [{'family': 'auto_jacobian', 'cseed': rnd.randrange(1 << 30), 'mode': 'auto'} for _ in range(8 if tier == 'quick' else 120)]
     # extrinsic inputs that multiply a state variable, adaptive solver (the input is a function of time inside J as well)
     cases += [{'family': 'inputs', 'cseed': rnd.randrange(1 << 30), 'mode': 'ode'} for _ in range(20 if tier == 'quick' else 300)]
+    # delayed edge under a fixed-step solver (the delay is a buffer there), the delayed term multiplying a state variable
+    fam = 'probe:fixed_step_delay_jacobian' if 'fixed_step_delay_jacobian' in opened else 'fixed_step_delay'
+    cases += [{'family': fam, 'cseed': rnd.randrange(1 << 30), 'mode': 'fixed_step_delay'} for _ in range(6 if tier == 'quick' else 60)]
     return cases
 
 
@@ -239,7 +242,57 @@ def run_input_case(case, ctx):
     return res
 
 
+def run_fixed_step_delay_case(case, ctx):
+    """One node u' = -a*u + c*u*inp with a delayed self-connection (delay = m integration steps, m >= 2) under euler / heun: the
+    delayed value is read from a buffer that get_run_func receives as an argument.  The function from get_jacobian_func, called
+    with the arguments it was returned with, must equal central differences (w.r.t. the state vector, buffer held fixed) of the
+    function from get_run_func."""
+    from pyrates import OperatorTemplate, NodeTemplate, CircuitTemplate
+    import warnings
+    rnd = random.Random(case['cseed'])
+    a, c, w = (round(rnd.uniform(0.5, 2.0), 3) for _ in range(3))
+    x0 = round(rnd.uniform(0.2, 0.9), 3)
+    m, dt, solver = rnd.choice([2, 3, 5, 8]), 1e-2, rnd.choice(['euler', 'heun'])
+    mech = {}
+    res = {'features': ['fixed_step_delay', solver, f'm{m}'], 'risk': ['fixed_step_delay_jacobian'], 'sig': stable_hash([a, c, w, x0, m, solver]),
+           'nontrivial': True}
+
+    def mk():
+        op = OperatorTemplate(name='dop', path='none', equations=["u' = -a*u + c*u*inp"],
+                              variables={'u': f'output({x0})', 'a': a, 'c': c, 'inp': 'input(0.0)'})
+        return CircuitTemplate(name='dc', path='none', nodes={'p': NodeTemplate(name='dn', path='none', operators=[op])},
+                               edges=[('p/dop/u', 'p/dop/inp', None, {'weight': w, 'delay': m * dt})])
+    kw = dict(step_size=dt, solver=solver, vectorize=False, verbose=False, in_place=False, float_precision='float64')
+    try:
+        with warnings.catch_warnings():
+            warnings.simplefilter('ignore')
+            try:
+                f, args, names, smap = mk().get_run_func('vf', clear=True, **kw)
+                J, jargs, jnames, jsmap = mk().get_jacobian_func('jac', clear=True, **kw)
+                J0 = np.asarray(J(*jargs), dtype=float)
+            except Exception as e:
+                raise observe.Mismatch(f"loud: fixed-step delayed Jacobian: {solver}, delay of {m} steps: {type(e).__name__}: {e}")
+        y = np.asarray(args[1], dtype=float).copy()
+        h = 1e-6
+
+        def fv(yv):
+            return np.array(f(args[0], yv.copy(), *args[2:]), dtype=float, copy=True).ravel()[:len(y)]
+        Jfd = np.array([(fv(y + h * np.eye(len(y))[j]) - fv(y - h * np.eye(len(y))[j])) / (2 * h) for j in range(len(y))]).T
+        if J0.shape != Jfd.shape or not np.allclose(J0, Jfd, rtol=1e-6, atol=1e-7):
+            raise observe.Mismatch(f"fixed-step delayed Jacobian: {solver}, delay of {m} steps: J = {J0.tolist()}, central differences of the "
+                                   f"vector field give {Jfd.tolist()}")
+        mech['entries_compared'] = J0.size
+        mech['fixed_step_delay_jacobians'] = 1
+        res.update(status='ok', symptom='', mech=mech)
+    except observe.Mismatch as e:
+        s2 = str(e)
+        res.update(status='violation', symptom=('silent: ' if 'loud' not in s2 else '') + s2, mech=mech, spec={'a': a, 'c': c, 'w': w, 'm': m, 'solver': solver})
+    return res
+
+
 def run_case(case, ctx):
+    if case.get('mode') == 'fixed_step_delay':
+        return run_fixed_step_delay_case(case, ctx)
     if case.get('family') == 'inputs':
         return run_input_case(case, ctx)
     if case.get('family') == 'auto_jacobian':
